@@ -495,7 +495,8 @@ def parts(tier):
             'law', execute,
             strategy=sim.histories(
                 weights={},
-                spec_kw={'min_algs': 2, 'levels': ('alg', 'sv', 'val', 'val')},
+                spec_kw={'min_algs': 2, 'levels': ('alg', 'sv', 'val', 'val'),
+                         'selfref': True},
             ),
             cases=1600 if q else 40000, batch=200,
         ),
